@@ -113,7 +113,7 @@ static void gcm_case(const gcmfam_t *f, uint64_t c, int stream, int thorough)
         uint8_t key[32], iv0[12];
         rng_fill(&r, key, 32); rng_fill(&r, iv0, 12);
         arena_reset(&r, len);
-        int nt = rng_below(&r, 4) == 0, inplace = !nt && rng_below(&r, 2);
+        int nt = rng_below(&r, 3) == 0, inplace = !nt && rng_below(&r, 2);
         size_t dal = nt ? 64 : 1, dmis = nt ? 0 : rng_below(&r, 64);
         uint8_t *pt = A(len, 64, dmis), *out = inplace ? NULL : A(len, 64, nt ? 0 : rng_below(&r, 64)), *back = A(len, 64, nt ? 0 : rng_below(&r, 64));
         uint8_t *aad = A(aadlen, 64, rng_below(&r, 64)), *iv = A(12, 16, rng_below(&r, 16)), *tag = A(16, 16, rng_below(&r, 16)), *tag2 = A(16, 16, rng_below(&r, 16));
